@@ -1,5 +1,246 @@
-import QModel.Core
-/-! C05 — model (not built yet) -/
+import QModel.C04
+/-!
+# C05 — physical projection (model of `QOperation.calc_proj_physical` / `calc_proj_physical_with_var`,
+quara/objects/qoperation.py)
+
+The two routines run the same loop (Dykstra's alternating projection with correction terms `p`, `q`) on the stacked
+parameter vector: the object-level one through `__add__/__sub__` and `calc_proj_*_constraint()` of the objects, the
+variable-level one through `calc_proj_*_constraint_with_var(…, on_para_eq_constraint=False)` on stacked vectors.
+The model is the loop on `Vec R N`; the two constraint projections are parameters `P1 P2 : Nat → Vec R N → Vec R N`
+(first and second projection of sweep `k`; for `"eq_ineq"` first = equality, second = inequality, otherwise the
+other way round — `sweepMode`).  The inequality projection of sweep `k` is built by the driver from the `k`-th
+`np.linalg.eigh` result of the real run (QModel.C04).
+
+Mirrored as coded: `p,q` start at the zero object, `x` at the input; one sweep
+`y = P1(x+p); p' = x+p−y; x' = P2(y+q); q' = y+q−x'`; the stopping value
+`np.sum((p−p')**2 + (q−q')**2)` is computed only for `k ≥ 1` and compared with `<` against `eps_proj_physical`;
+the loop ends on `is_stopping` or after `max_iteration` sweeps; the warning is printed when `k == max_iteration−1`
+(also when the criterion fired in that very sweep); `max_iteration = 0` leaves `k` unbound (`none` here).
+The history is kept as one record per sweep; the five lists of the Python dict are read off it (`histP` … `histE`).
+-/
 namespace QM.C05
-def handle (_args : List String) : Option String := none
+open QM.C04
+
+section loop
+variable {R : Type} [Add R] [Sub R] [Mul R] [Zero R] [LT R] [DecidableRel (α := R) (· < ·)] {N : Nat}
+
+structure St (R : Type) (N : Nat) where
+  x : Vec R N
+  p : Vec R N
+  q : Vec R N
+
+/-- one history record: sweep index, state before, state after, the intermediate `y`, the stopping value -/
+structure Rec (R : Type) (N : Nat) where
+  k : Nat
+  prev : St R N
+  next : St R N
+  y : Vec R N
+  err : Option R
+
+/-- body of one loop iteration -/
+def sweep (P1 P2 : Vec R N → Vec R N) (s : St R N) : St R N × Vec R N :=
+  let y := P1 (s.x.add s.p)
+  let p' := (s.x.add s.p).sub y
+  let x' := P2 (y.add s.q)
+  let q' := (y.add s.q).sub x'
+  (⟨x', p', q'⟩, y)
+
+/-- `if self.mode_proj_order == "eq_ineq": … else: …` -/
+def sweepMode (eqIneq : Bool) (Peq Pineq : Vec R N → Vec R N) (s : St R N) : St R N × Vec R N :=
+  if eqIneq then sweep Peq Pineq s else sweep Pineq Peq s
+
+/-- `_calc_stopping_criterion_birgin_raydan2_vectors`: `np.sum((p_prev-p_next)**2 + (q_prev-q_next)**2)` -/
+def errVal (s s' : St R N) : R :=
+  fsum N fun i =>
+    (s.p.get i - s'.p.get i) * (s.p.get i - s'.p.get i) + (s.q.get i - s'.q.get i) * (s.q.get i - s'.q.get i)
+
+structure Out (R : Type) (N : Nat) where
+  x : Vec R N            -- returned `x_next`
+  recs : List (Rec R N)  -- newest first
+  k : Nat                -- value of the loop variable after the loop
+  warned : Bool          -- `k == max_iteration - 1`
+
+/-- `loop r k s acc`: `r` sweeps remain (including the one about to run), `k` is the loop variable -/
+def loop (eps : R) (P1 P2 : Nat → Vec R N → Vec R N) :
+    Nat → Nat → St R N → List (Rec R N) → Out R N
+  | 0, k, s, acc => ⟨s.x, acc, k, true⟩
+  | r + 1, k, s, acc =>
+    let sy := sweep (P1 k) (P2 k) s
+    let err : Option R := if 1 ≤ k then some (errVal s sy.1) else none
+    let stop : Bool := match err with
+      | some e => decide (e < eps)
+      | none => false
+    let acc' := (⟨k, s, sy.1, sy.2, err⟩ : Rec R N) :: acc
+    if stop || r == 0 then ⟨sy.1.x, acc', k, r == 0⟩ else loop eps P1 P2 r (k + 1) sy.1 acc'
+
+/-- the whole routine on stacked vectors; `none` = `max_iteration == 0` (UnboundLocalError on `k`) -/
+def run (eps : R) (P1 P2 : Nat → Vec R N → Vec R N) (maxIter : Nat) (x0 : Vec R N) : Option (Out R N) :=
+  if maxIter = 0 then none else some (loop eps P1 P2 maxIter 0 ⟨x0, Vec.zero, Vec.zero⟩ [])
+
+/-- projections of sweep `k` for the two orders -/
+def runMode (eps : R) (eqIneq : Bool) (Peq : Vec R N → Vec R N) (Pineq : Nat → Vec R N → Vec R N)
+    (maxIter : Nat) (x0 : Vec R N) : Option (Out R N) :=
+  if eqIneq then run eps (fun _ => Peq) Pineq maxIter x0 else run eps Pineq (fun _ => Peq) maxIter x0
+
+/-! the five lists of the history dict -/
+def histP (o : Out R N) : List (Vec R N) := Vec.zero :: o.recs.reverse.map (·.next.p)
+def histQ (o : Out R N) : List (Vec R N) := Vec.zero :: o.recs.reverse.map (·.next.q)
+def histX (x0 : Vec R N) (o : Out R N) : List (Vec R N) := x0 :: o.recs.reverse.map (·.next.x)
+def histY (o : Out R N) : List (Option (Vec R N)) := none :: o.recs.reverse.map (some ·.y)
+def histE (o : Out R N) : List (Option R) := o.recs.reverse.map (·.err)
+
+end loop
+
+/-! ## stacked vectors ↔ the shapes of QModel.C04 -/
+section shapes
+variable {K : Type} {m n : Nat}
+
+theorem idx_lt {m n : Nat} (i : Fin m) (j : Fin n) : i.val * n + j.val < m * n :=
+  Nat.lt_of_lt_of_le (Nat.add_lt_add_left j.isLt _)
+    (by rw [← Nat.succ_mul]; exact Nat.mul_le_mul_right n i.isLt)
+
+def unflatten (v : Vec K (m * n)) : Mat K m n := Mat.ofFn fun i j => v.get ⟨i.val * n + j.val, idx_lt i j⟩
+def tenOfVec (v : Vec K (m * (n * n))) : Ten K m n n := Vector.ofFn fun x => unflatten ((unflatten v)[x])
+def vecOfTen (T : Ten K m n n) : Vec K (m * (n * n)) := flatten (Vector.ofFn fun x => flatten T[x])
+end shapes
+
+/-! ## the equality projections of the four types on stacked vectors (`…_with_var(…, False)`) -/
+section eqs
+variable {R : Type} [Add R] [Sub R] [Mul R] [Div R] [Neg R] [Zero R] [One R] [NatCast R] {m n : Nat}
+def peqState (s : R) (v : Vec R n) : Vec R n := State.projEqVar s false v
+def peqPovm (t : R) (v : Vec R (m * n)) : Vec R (m * n) := flatten (Povm.projEqVarF t (unflatten v))
+def peqGate (v : Vec R (n * n)) : Vec R (n * n) := Gate.projEqVar n false v
+def peqMProcess (v : Vec R (m * (n * n))) : Vec R (m * (n * n)) := vecOfTen (MProcess.projEqVarF (tenOfVec v))
+end eqs
+
+/-! ## driver -/
+section driver
+
+abbrev Q := Rat
+abbrev CQ := Cx Rat
+
+/-- everything the driver needs for one run of one type on stacked vectors of length `N` -/
+structure Kit (N : Nat) where
+  peq : Vec Q N → Vec Q N
+  /-- result of the inequality projection of sweep `k` (depends on the supplied eigh result only) -/
+  pin : List (Except Err (Vec Q N))
+  /-- eigh contract residuals of sweep `k` for the vector that the code hands to the inequality projection -/
+  res : List (Vec Q N → Q × Q)
+
+def slice {α : Type} (l : List α) (k size : Nat) : List α := (l.drop (k * size)).take size
+
+def kitState (d n : Nat) (s eps : Q) (basis : List CQ) (steps : Nat) (lams : List Q) (us : List CQ) :
+    Option (Kit n) := do
+  let B ← tenOf? n d d basis
+  let eig ← (List.range steps).mapM fun k => do
+    let lam ← vecOf? d (slice lams k d)
+    let U ← matOf? d d (slice us k (d * d))
+    pure (lam, U)
+  pure { peq := peqState s
+         pin := eig.map fun e => State.projIneq B eps e.1 e.2
+         res := eig.map fun e v => (eighResidual (State.ineqInput B v) e.1 e.2, unitaryResidual e.2) }
+
+def kitPovm (d n m : Nat) (t eps : Q) (basis : List CQ) (steps : Nat) (lams : List Q) (us : List CQ) :
+    Option (Kit (m * n)) := do
+  let B ← tenOf? n d d basis
+  let eig ← (List.range steps).mapM fun k => eigs? m d (slice lams k (m * d)) (slice us k (m * (d * d)))
+  pure { peq := peqPovm t
+         pin := eig.map fun e => (Povm.projIneq B eps e).map flatten
+         res := eig.map fun e v => resid (Povm.ineqInput B (unflatten v)) e }
+
+def kitGate (d n : Nat) (eps : Q) (basis : List CQ) (steps : Nat) (lams : List Q) (us : List CQ) :
+    Option (Kit (n * n)) := do
+  let B ← tenOf? n d d basis
+  let D := d * d
+  let eig ← (List.range steps).mapM fun k => do
+    let lam ← vecOf? D (slice lams k D)
+    let U ← matOf? D D (slice us k (D * D))
+    pure (lam, U)
+  pure { peq := peqGate
+         pin := eig.map fun e => Gate.projIneq B eps e.1 e.2
+         res := eig.map fun e v => (eighResidual (Gate.ineqInput B (unflatten v)) e.1 e.2, unitaryResidual e.2) }
+
+def kitMProcess (d n m : Nat) (eps : Q) (basis : List CQ) (steps : Nat) (lams : List Q) (us : List CQ) :
+    Option (Kit (m * (n * n))) := do
+  let B ← tenOf? n d d basis
+  let D := d * d
+  let eig ← (List.range steps).mapM fun k => eigs? m D (slice lams k (m * D)) (slice us k (m * (D * D)))
+  pure { peq := peqMProcess
+         pin := eig.map fun e => (MProcess.projIneq B eps e).map flatten
+         res := eig.map fun e v => resid (MProcess.ineqInput B (tenOfVec v)) e }
+
+def showOptV {N : Nat} : Option (Vec Q N) → String
+  | none => "none"
+  | some v => showV v
+def showOptQ : Option Q → String
+  | none => "none"
+  | some e => showRat e
+
+/-- run the loop with the kit; replies
+`ok k warned |x| p-list | q-list | x-list | y-list | errs | eighres unitres`  (lists separated by `;`) -/
+def runKit {N : Nat} (kit : Kit N) (eqIneq : Bool) (epsProj : Q) (maxIter : Nat) (x0 : List Q) : Option String := do
+  let x0 ← vecOf? N x0
+  -- a projection error (imaginary parts) of any supplied step is reported before running
+  let pins ← (kit.pin.mapM fun r => match r with
+    | .ok v => some v
+    | .error _ => none) <|> some []
+  if pins.length ≠ kit.pin.length then some "err imag" else
+  let arr := pins.toArray
+  -- total lookup for the loop; steps beyond the supplied data are detected afterwards (`need-more`), never reported
+  let pinF : Nat → Vec Q N → Vec Q N := fun k v => if h : k < arr.size then arr[k] else v
+  match runMode epsProj eqIneq kit.peq pinF maxIter x0 with
+  | none => some "err unbound-k"
+  | some o =>
+    if o.recs.length > arr.size then some "need-more" else
+    let recs := o.recs.reverse
+    let inputs : List (Vec Q N) := recs.map fun r => if eqIneq then r.y.add r.prev.q else r.prev.x.add r.prev.p
+    let rs := (inputs.zip kit.res).map fun (v, f) => f v
+    let e1 := rs.foldl (fun a r => a + r.1) 0
+    let e2 := rs.foldl (fun a r => a + r.2) 0
+    let j (l : List String) := ";".intercalate l
+    some s!"ok {o.k} {o.warned} {showV o.x} {j ((histP o).map showV)} {j ((histQ o).map showV)} {j ((histX x0 o).map showV)} {j ((histY o).map showOptV)} {j ((histE o).map showOptQ)} {showRat e1} {showRat e2}"
+
+/-- one sweep from a recorded state: replies `ok y x' p' q' errval eighres unitres` -/
+def stepKit {N : Nat} (kit : Kit N) (eqIneq : Bool) (x p q : List Q) : Option String := do
+  let s : St Q N := ⟨← vecOf? N x, ← vecOf? N p, ← vecOf? N q⟩
+  match kit.pin, kit.res with
+  | [.error _], _ => some "err imag"
+  | [.ok pv], [rf] =>
+    let sy := sweepMode eqIneq kit.peq (fun _ => pv) s
+    let input := if eqIneq then sy.2.add s.q else s.x.add s.p
+    let r := rf input
+    some s!"ok {showV sy.2} {showV sy.1.x} {showV sy.1.p} {showV sy.1.q} {showRat (errVal s sy.1)} {showRat r.1} {showRat r.2}"
+  | _, _ => none
+
+def withKit (typ : String) (d n m : Nat) (c eps : Q) (basis : List CQ) (steps : Nat) (lams : List Q) (us : List CQ)
+    (f : {N : Nat} → Kit N → Option String) : Option String :=
+  match typ with
+  | "State" => (kitState d n c eps basis steps lams us).bind f
+  | "Povm" => (kitPovm d n m c eps basis steps lams us).bind f
+  | "Gate" => (kitGate d n eps basis steps lams us).bind f
+  | "MProcess" => (kitMProcess d n m eps basis steps lams us).bind f
+  | _ => none
+
+/-- requests:
+`run  typ order d n m c eps basis epsProj maxIter steps x0 lams us`
+`step typ order d n m c eps basis x p q lams us`
+(`c` = `1/√d` for State, `√d` for Povm, unused otherwise; `order` = `eq_ineq` or anything else) -/
+def handle (args : List String) : Option String :=
+  match args with
+  | ["run", typ, order, d, n, m, c, eps, basis, epsProj, maxIter, steps, x0, lams, us] => do
+      let d ← parseNat? d; let n ← parseNat? n; let m ← parseNat? m
+      let c ← parseRat? c; let eps ← parseRat? eps; let epsProj ← parseRat? epsProj
+      let maxIter ← parseNat? maxIter; let steps ← parseNat? steps
+      let basis ← cxs? basis; let x0 ← rats? x0; let lams ← rats? lams; let us ← cxs? us
+      withKit typ d n m c eps basis steps lams us fun kit => runKit kit (order == "eq_ineq") epsProj maxIter x0
+  | ["step", typ, order, d, n, m, c, eps, basis, x, p, q, lams, us] => do
+      let d ← parseNat? d; let n ← parseNat? n; let m ← parseNat? m
+      let c ← parseRat? c; let eps ← parseRat? eps
+      let basis ← cxs? basis; let x ← rats? x; let p ← rats? p; let q ← rats? q
+      let lams ← rats? lams; let us ← cxs? us
+      withKit typ d n m c eps basis 1 lams us fun kit => stepKit kit (order == "eq_ineq") x p q
+  | _ => none
+
+end driver
+
 end QM.C05
